@@ -192,6 +192,24 @@ def c04_boundary(state):
         if state.get("prev") is not None and better(mx, state["prev"], bi.fitness):
             state["viol"].append(V("C04/best-got-worse", f"boundary {tree.metaepoch_count}: best fitness went from {state['prev']} to {bi.fitness}"))
         state["prev"] = bi.fitness
+        # the reported best value is a value of the objective: of its level's objective, at its genome
+        try:
+            owner = next(d for _, d in tree.all_demes if any(i is bi for i in d.all_individuals))
+            want = R.make_objective(run.spec, owner.level)(np.array(bi.genome, dtype=float))
+            got = float(bi.fitness)
+            if want == want and got == got and abs(got) != float("inf") and abs(want) != float("inf") and got != want:
+                state["viol"].append(V("C04/reported-best-is-not-an-objective-value", f"boundary {tree.metaepoch_count}: tree.best_individual (deme {owner.id}, level {owner.level}) reports fitness {got!r}, the objective of that level gives {want!r} at its genome"))
+        except StopIteration:
+            pass
+        for _, d in tree.all_demes:
+            if not d.all_individuals:
+                continue
+            b = d.best_individual
+            want = R.make_objective(run.spec, d.level)(np.array(b.genome, dtype=float))
+            got = float(b.fitness)
+            if want == want and got == got and abs(got) != float("inf") and abs(want) != float("inf") and got != want and not any(i is b for _, p in tree.all_demes if p is not d for i in p.all_individuals):
+                state["viol"].append(V("C04/reported-best-is-not-an-objective-value", f"boundary {tree.metaepoch_count}: deme {d.id} (level {d.level}) reports a best individual with fitness {got!r}, the objective of that level gives {want!r} at its genome"))
+                break
         # best ever observed by non-local engines
         obs = [v for r in {id(r): r for r in run.objs["recs"]}.values() for who, _, v in r.calls if run.deme_objs.get(deme_of(who)) is None or type(run.deme_objs[deme_of(who)]).__name__ != "LocalDeme"]
         if obs and better(mx, best_of(mx, obs), bi.fitness):
@@ -283,6 +301,9 @@ def c06(run):
                 out.append(V(sig, f"metaepoch {s['n']}: {what} deme {did} changed (metaepochs +{adv}, evals {a['n_evals']}->{b['n_evals']})"))
             if not a["active"] and b["active"]:
                 out.append(V("C06/reactivated", f"metaepoch {s['n']}: deme {did} became active again"))
+            if a["active"] and not b["active"] and did not in ran:
+                # a deme becomes inactive only at the end of a metaepoch it ran (its LSC, the GSC, its engine)
+                out.append(V("C06/deactivated-without-running", f"metaepoch {s['n']}: deme {did} became inactive in a metaepoch it did not run (hibernating: {a['hib']}; its metaepoch count stayed {a['metaepochs']})"))
             if did in ran:
                 r = ran[did]
                 gsc_true = any(r["gsc"])
